@@ -271,7 +271,8 @@ CmpUsesNum(op, a, b) == op \notin {"=", "!="} \/ a.t = "n" \/ b.t = "n"
 CmpNumsJudged(op, a, b) ==
   LET na == IF IsSet(a) THEN [i \in 1..Len(Members(a)) |-> ToNumS(Members(a)[i])] ELSE <<ToNum(a)>>
       nb == IF IsSet(b) THEN [i \in 1..Len(Members(b)) |-> ToNumS(Members(b)[i])] ELSE <<ToNum(b)>>
-  IN ~CmpUsesNum(op, a, b) \/ a.t = "b" \/ b.t = "b"
+  IN ~CmpUsesNum(op, a, b)
+     \/ (op \in {"=", "!="} /\ (a.t = "b" \/ b.t = "b"))          \* decided on booleans, no number involved
      \/ ((\A i \in 1..Len(na) : ~IsOOM(na[i])) /\ (\A i \in 1..Len(nb) : ~IsOOM(nb[i])))
 
 ArithOps == {"+", "-", "*", "div", "mod"}
